@@ -69,6 +69,151 @@ example :
   rw [alpha]; decide
 
 
+/-! ## (b) continued: what func_adl's simplifier does to bound names -/
+
+/-- **C08.simplify_alpha_partial** — Full statement: `simplify_chained_calls` maps α-equivalent queries to α-equivalent
+queries.  That is false of func_adl 3.5 (counterexamples below), so the hypothesis `captureFree0` (decidable; evaluated by
+the harness on every variant) asks of each of the two queries that the simplifier treats it like its canonically named
+α-variant `canonNames q` (every binder named after its depth, so no name is bound twice and none collides with `acc`,
+`v`, `arg_N`).  Under it: both simplifications fail alike, or the simplified queries are α-equivalent. -/
+theorem simplify_alpha_partial (fuel : Nat) (q q' : Q) (h : AlphaEq [] q q')
+    (hc : captureFree0 fuel q = true) (hc' : captureFree0 fuel q' = true) :
+    hasBang (simplify fuel [] 0 (aggNorm (normStyle q))).1 = hasBang (simplify fuel [] 0 (aggNorm (normStyle q'))).1 ∧
+    (hasBang (simplify fuel [] 0 (aggNorm (normStyle q))).1 = false →
+      resolve [] (simplify fuel [] 0 (aggNorm (normStyle q))).1 =
+      resolve [] (simplify fuel [] 0 (aggNorm (normStyle q'))).1) := by
+  have e : canonNames q = canonNames q' := by unfold canonNames; rw [(alpha q q').1 h]
+  simp only [captureFree0, Bool.and_eq_true, Bool.or_eq_true, beq_iff_eq] at hc hc'
+  rw [e] at hc
+  obtain ⟨h1, h2⟩ := hc
+  obtain ⟨h1', h2'⟩ := hc'
+  refine ⟨h1.trans h1'.symm, fun hb => ?_⟩
+  have hb' : hasBang (simplify fuel [] 0 (aggNorm (normStyle q'))).1 = false := by rw [h1', ← h1]; exact hb
+  rcases h2 with h2 | h2
+  · rw [hb] at h2; cases h2
+  rcases h2' with h2' | h2'
+  · rw [hb'] at h2'; cases h2'
+  exact ((DB.beq_eq _ _).1 h2).trans ((DB.beq_eq _ _).1 h2').symm
+
+namespace Cex
+def jets (e n : String) : Q := .app (Q.attr (.var e) "Jets") [.lit ("str:'" ++ n ++ "'")]
+def pt (j : String) : Q := .app (Q.attr (.var j) "pt") []
+def gt (a b : Q) : Q := .node "cmp:Gt" [a, b]
+def one : Q := .lit "int:1"
+
+/-- `ds.Where(lambda e: Count(e.Jets('J').Where(lambda <inner>: <inner>.pt() > 1)) > 1).Where(lambda f: Count(f.Jets('J')) > 1)` -/
+def whereWhere (inner : String) : Q :=
+  Q.call "Where" [Q.call "Where" [.var "ds",
+      .lam ["e"] (gt (Q.call "Count" [Q.call "Where" [jets "e" "J", .lam [inner] (gt (pt inner) one)]]) one)],
+    .lam ["f"] (gt (Q.call "Count" [jets "f" "J"]) one)]
+
+/-- `ds.Where(lambda e: Count(e.Jets('J')) > 1).Where(lambda <p>: Count(<p>.Jets('J')) > 1)` -/
+def whereCount (p : String) : Q :=
+  Q.call "Where" [Q.call "Where" [.var "ds", .lam ["e"] (gt (Q.call "Count" [jets "e" "J"]) one)],
+    .lam [p] (gt (Q.call "Count" [jets p "J"]) one)]
+
+/-- `ds.Select(lambda e: e.Jets('J')).Select(lambda c: c.Select(lambda <p>: <p>.pt()))` -/
+def selSel (p : String) : Q :=
+  Q.call "Select" [Q.call "Select" [.var "ds", .lam ["e"] (jets "e" "J")],
+    .lam ["c"] (Q.call "Select" [.var "c", .lam [p] (pt p)])]
+
+/-- `ds.Select(lambda e: e.os().SelectMany(lambda <p>: <p>.vs()).Select(lambda t: e.pt()))` -/
+def pushed (p : String) : Q :=
+  Q.call "Select" [.var "ds", .lam ["e"]
+    (Q.call "Select" [Q.call "SelectMany" [.app (Q.attr (.var "e") "os") [], .lam [p] (.app (Q.attr (.var p) "vs") [])],
+      .lam ["t"] (pt "e")])]
+
+def cond (e n : String) : Q := gt (Q.call "Count" [jets e n]) one
+/-- three chained Wheres, and the same with the last two fused by hand -/
+def www : Q := Q.call "Where" [Q.call "Where" [Q.call "Where" [.var "ds", .lam ["a"] (cond "a" "J")], .lam ["b"] (cond "b" "K")], .lam ["c"] (cond "c" "L")]
+def wwFused : Q := Q.call "Where" [Q.call "Where" [.var "ds", .lam ["a"] (cond "a" "J")],
+  .lam ["z"] (.node "bool:And" [.app (.lam ["b"] (cond "b" "K")) [.var "z"], .app (.lam ["c"] (cond "c" "L")) [.var "z"]])]
+end Cex
+
+/-- **C08.where_shadow_counterexample** — (b) is false of the pipeline: an inner lambda that re-uses the parameter name
+of a `Where` predicate is captured when func_adl fuses `Where`∘`Where` (its β-reduction walks the body with the
+parameter in the frame stack and pushes no frame for inner lambdas).  Replayed on the real code as a listed finding. -/
+theorem where_shadow_counterexample :
+    AlphaEq [] (Cex.whereWhere "j") (Cex.whereWhere "e") ∧
+    resolve [] (simplify 40 [] 0 (aggNorm (Cex.whereWhere "j"))).1 ≠ resolve [] (simplify 40 [] 0 (aggNorm (Cex.whereWhere "e"))).1 ∧
+    captureFree0 40 (Cex.whereWhere "j") = true ∧ captureFree0 40 (Cex.whereWhere "e") = false := by
+  refine ⟨by rw [alpha]; decide, by decide, by decide, by decide⟩
+
+/-- **C08.count_acc_counterexample** — no user-written shadowing is needed: `Count()` becomes
+`Aggregate(…, lambda acc, v: acc + 1)`, so a fused `Where` predicate whose own parameter is called `acc` is broken. -/
+theorem count_acc_counterexample :
+    AlphaEq [] (Cex.whereCount "f") (Cex.whereCount "acc") ∧
+    resolve [] (simplify 40 [] 0 (aggNorm (Cex.whereCount "f"))).1 ≠ resolve [] (simplify 40 [] 0 (aggNorm (Cex.whereCount "acc"))).1 := by
+  refine ⟨by rw [alpha]; decide, by decide⟩
+
+/-- **C08.argname_counterexample** — a parameter called `arg_0` collides with the names func_adl generates when it
+fuses `Select`∘`Select` (with its counter at 0). -/
+theorem argname_counterexample :
+    AlphaEq [] (Cex.selSel "q") (Cex.selSel "arg_0") ∧
+    resolve [] (simplify 40 [] 0 (Cex.selSel "q")).1 ≠ resolve [] (simplify 40 [] 0 (Cex.selSel "arg_0")).1 := by
+  refine ⟨by rw [alpha]; decide, by decide⟩
+
+/-- **C08.push_capture_counterexample** — a `Select` that follows a `SelectMany` is moved into the SelectMany's lambda
+unrenamed: the outer `e` it mentions is captured when that lambda's parameter is called `e` too. -/
+theorem push_capture_counterexample :
+    AlphaEq [] (Cex.pushed "j") (Cex.pushed "e") ∧
+    resolve [] (simplify 40 [] 0 (Cex.pushed "j")).1 ≠ resolve [] (simplify 40 [] 0 (Cex.pushed "e")).1 := by
+  refine ⟨by rw [alpha]; decide, by decide⟩
+
+/-! ## (d) chained Select / Where steps, separately written or fused -/
+
+/-- **C08.fusion_select_partial** — `Select(Select(s, x: f), y: g)` and `Select(s, z: (y: g)((x: f)(z)))` have the same
+normal form up to α (func_adl renames parameters with a global counter, hence "up to α").
+Full statement: for all `s`, `f`, `g`.  Proved for: lambda bodies that are `scalar` (no nested lambdas, sequence
+operators, subscripts or dict displays: `j.pt()*2 > abs(j.eta())`, tuples, if-else …), an inner selection that is not the
+identity, a stream `s` whose own normal form `p0` is not a Select/SelectMany (defect exclusion: there func_adl fuses /
+pushes step by step, which copies selections — listed findings), fresh `arg_N` names and `z` (defect exclusion:
+`argname_counterexample`), and enough fuel for the bodies.  Beyond that (nested sequences in the bodies, tuple
+projection) the statement is sampled by the harness, not proved. -/
+theorem fusion_select_partial (F n n1 : Nat) (s p0 fb gb : Q) (x y z : String)
+    (hs : simplify F [] n s = (p0, n1))
+    (hp : p0.isCallOf "Select" = false ∧ p0.isCallOf "SelectMany" = false)
+    (hfb : scalar fb = true) (hgb : scalar gb = true) (hid : fb ≠ .var x)
+    (hF : depth fb + 5 ≤ F ∧ depth gb + 5 ≤ F)
+    (hfresh : ∀ w ∈ [argName n1, argName (n1 + 1), argName (n1 + 2), z], w ∉ allNames fb ∧ w ∉ allNames gb) :
+    resolve [] (simplify (F + 2) [] n (Q.call "Select" [Q.call "Select" [s, .lam [x] fb], .lam [y] gb])).1 =
+    resolve [] (simplify (F + 1) [] n
+      (Q.call "Select" [s, .lam [z] (.app (.lam [y] gb) [.app (.lam [x] fb) [.var z]])])).1 :=
+  fusion_select_core F n n1 s p0 fb gb x y z hs hp hfb hgb hid hF hfresh
+
+/-- **C08.fusion_where_partial** — `Where(Where(s, x: f), y: g)` and `Where(s, z: (x: f)(z) and (y: g)(z))` have the
+same normal form up to α.  Hypotheses as for `fusion_select_partial`; in addition the normal form `p0` of the stream is
+not a `Where` either (defect exclusion: `fusion_where_assoc_counterexample`), simplifying it again changes nothing
+(func_adl re-visits it), and the first predicate is not the constant `True` (which func_adl drops). -/
+theorem fusion_where_partial (F n n1 : Nat) (s p0 fb gb : Q) (x y z : String)
+    (hs : simplify F [] n s = (p0, n1))
+    (hstable : simplify F [] (n1 + 1) p0 = (p0, n1 + 1))
+    (hp : p0.isCallOf "Where" = false ∧ p0.isCallOf "Select" = false ∧ p0.isCallOf "SelectMany" = false)
+    (hfb : scalar fb = true) (hgb : scalar gb = true) (htrue : fb ≠ .lit "bool:True")
+    (hF : depth fb + 8 ≤ F ∧ depth gb + 8 ≤ F)
+    (hfresh : ∀ w ∈ [argName n1, z], w ∉ allNames fb ∧ w ∉ allNames gb) :
+    resolve [] (simplify (F + 2) [] n (Q.call "Where" [Q.call "Where" [s, .lam [x] fb], .lam [y] gb])).1 =
+    resolve [] (simplify (F + 1) [] n
+      (Q.call "Where" [s, .lam [z] (.node "bool:And" [.app (.lam [x] fb) [.var z], .app (.lam [y] gb) [.var z]])])).1 :=
+  fusion_where_core F n n1 s p0 fb gb x y z hs hstable hp hfb hgb htrue hF hfresh
+
+/-- non-vacuity: `ds.Select(lambda j: (j.pt(), j.eta())).Select(lambda t: twice(t))` satisfies every hypothesis -/
+example :
+    let fb := Q.node "tuple" [Cex.pt "j", .app (Q.attr (.var "j") "eta") []]
+    let gb := Q.call "twice" [.var "t"]
+    simplify 20 [] 0 (.var "ds") = (.var "ds", 0) ∧ scalar fb = true ∧ scalar gb = true ∧ fb ≠ .var "j" ∧
+    (depth fb + 5 ≤ 20 ∧ depth gb + 5 ≤ 20) ∧
+    (∀ w ∈ [argName 0, argName 1, argName 2, "z"], w ∉ allNames fb ∧ w ∉ allNames gb) := by
+  decide
+
+/-- **C08.fusion_where_assoc_counterexample** — the hypothesis on the stream cannot be dropped: with a third `Where`
+underneath, fusing the last two by hand gives `f1 and (f2 and f3)` where func_adl builds `(f1 and f2) and f3`; the
+translator nests its `if`s accordingly.  (Listed finding, replayed on the real pipeline.) -/
+theorem fusion_where_assoc_counterexample :
+    resolve [] (simplify 60 [] 0 (aggNorm Cex.www)).1 ≠ resolve [] (simplify 60 [] 0 (aggNorm Cex.wwFused)).1 := by
+  decide
+
+
 /-! ## (c) position of MetaData calls -/
 
 /-- **C08.md_outermost_first** — `extract_metadata` returns the dictionaries outermost first: a MetaData call wrapped
